@@ -80,8 +80,8 @@ func c03DenomID(d string) uint64 {
 	return 0
 }
 
-const c03Mod = 900      // account id of the storage module account
-const c03ByBase = 800   // account ids of bystanders
+const c03Mod = 900    // account id of the storage module account
+const c03ByBase = 800 // account ids of bystanders
 const c03NBystanders = 2
 
 var c03P18 = new(big.Int).Exp(big.NewInt(10), big.NewInt(18), nil)
